@@ -199,8 +199,8 @@ def main():
         "Record stream: every target list of CallStream (nested targets sharing a start included) -> BED -> assemble -> call / call-exact, "
         "each run validated as a whole (EveryRecordOnce) and record by record."
     )
-    cfgs = ["MC_quick.cfg", "MC_quick_b.cfg", "MC_quick_c.cfg", "MC_hint.cfg"] if tier == "quick" else \
-        ["MC_quick_c.cfg", "MC_thorough.cfg", "MC_thorough_b.cfg", "MC_thorough_c.cfg", "MC_hint.cfg", "MC_hint_b.cfg", "MC_hint_thorough.cfg"]
+    cfgs = ["MC_quick.cfg", "MC_quick_b.cfg", "MC_quick_c.cfg", "MC_hint.cfg", "MC_symbols.cfg"] if tier == "quick" else \
+        ["MC_quick_c.cfg", "MC_thorough.cfg", "MC_thorough_b.cfg", "MC_thorough_c.cfg", "MC_hint.cfg", "MC_hint_b.cfg", "MC_hint_thorough.cfg", "MC_symbols.cfg"]
     hinted = []     # states whose SNVPOS annotation is absent / '.' / incomplete / stale, for the catalogue runs
     n_hint = {"absent": 0, "dot": 0, "covering": 0, "non-covering": 0}
     wdir = os.path.join(ck.wd, "tmp")
